@@ -27,6 +27,7 @@ RULES = {
     "R12.3": "config.max_checkpoints / enable_async_checkpointing reach CheckpointManagerOptions(max_to_keep=, enable_async_checkpointing=) through all hops",
     "R12.4": "in _setup_checkpointing the `checkpoint_frequency == 0` return dominates mkdir, manager creation and the config write",
     "R12.5": "_save_solver_config() is called iff has_full_config",
+    "R12.8": "every retained step holds the solver state of that iteration: between a step and the save that records it, saved state is written only by storing the step's results (instances of C09 R9.7)",
     "R12.7": "restore(): an explicit checkpoint_frequency / max_checkpoints override - including 0, which disables checkpointing - reaches the configuration (guarded by `is not None`, not by truthiness)",
     "R12.6": "file-system effects on a checkpoint directory occur only at the frozen sites (mkdir + OmegaConf.save in set-up, CheckpointManager(create=True) in _create_checkpoint_manager, checkpoint_manager.save)",
 }
@@ -64,11 +65,16 @@ def run(ctx: Context, col) -> None:
         part(_periodic, ctx, cls, loop, col)
         part(_final, ctx, cls, loop, col)
         part(_flow, ctx, cls, col)
+    from .c09 import _saved_state_untouched, save_paths
+    for cls in ctx.solvers():
+        spaths = save_paths(ctx, cls)[2]
+        part(_saved_state_untouched, ctx, cls, ctx.solve_loop(cls), {k for k in spaths if not k.startswith("<")}, col, "R12.8")
     part(_setup, ctx, col)
     part(_enabled, ctx, col)
     part(_writers, ctx, col)
     part(_override_zero, ctx, col)
     part.finish()
+    col.floor("R12.8", 5)
     col.floor("R12.7", 2)
     col.floor("R12.1", 6)
     col.floor("R12.2", 5)
